@@ -64,6 +64,18 @@ def resolve_ctor(expr, sigs):
                 binding[k.value.id] = k.arg
             else:
                 fixed[k.arg] = unp(k.value)
+        # exact re-parameterisations (catalogue): N(loc, Sigma) written as MultivariateNormalTriL(loc, scale_tril=cholesky(Sigma)) — the form
+        # TFP's deprecation notice for MultivariateNormalFullCovariance prescribes — is the covariance parameterisation, provided the
+        # Cholesky factor is taken of the parameter itself (a jittered / scaled covariance is a different distribution and stays unbound)
+        if cls == "MultivariateNormalTriL":
+            tril = next((k.value for k in expr.body.keywords if k.arg == "scale_tril"), None)
+            if tril is None and len(expr.body.args) >= 2:
+                tril = expr.body.args[1]
+            if isinstance(tril, ast.Call) and unp(tril.func).split(".")[-1] == "cholesky" and len(tril.args) == 1 and isinstance(tril.args[0], ast.Name) \
+                    and tril.args[0].id in lam_params and all(kw.arg == "lower" and unp(kw.value) == "True" for kw in tril.keywords):
+                binding[tril.args[0].id] = "covariance_matrix"
+                fixed.pop("scale_tril", None)
+                cls = "MultivariateNormalFullCovariance"
         return cls, [binding.get(p) for p in lam_params], fixed, lam_params
     return None
 
